@@ -247,8 +247,25 @@ class FrontierExhaustive(Facet):
             w.cleanup()
 
 
+DEEP_SPEC = {
+    "abstracts": [{"name": "A0", "parent": None, "style": "decorator"}],
+    "concretes": [
+        {"name": "C0", "parent": "A0", "weight": None, "fields": [["f0", ["ref", "C1"]]]},
+        {"name": "C1", "parent": None, "weight": None, "fields": [["f0", ["ref", "C2"]]]},
+        {"name": "C2", "parent": None, "weight": None, "fields": [["f0", ["ref", "C3"]]]},
+        {"name": "C3", "parent": None, "weight": None, "fields": [["f0", ["ref", "C4"]]]},
+        {"name": "C4", "parent": None, "weight": None, "fields": []},
+    ],
+    "start": "A0",
+    "expansion": False,
+    "considered": ["A0", "C0", "C1", "C2", "C3", "C4"],
+}
+
+
 class Initializers(Facet):
-    """Depth-taking initialisers on the tree representation."""
+    """Depth-taking initialisers on the tree representation: full, position-independent grow and
+    ramped half-and-half, optionally as an object that was used before on ANOTHER grammar (one
+    whose minimum depth is 5, so that small limits are rejected there)."""
 
     name = "initializers"
     flags = FLAGS
@@ -258,19 +275,20 @@ class Initializers(Facet):
 
     def strategy(self, tier):
         return st.builds(
-            lambda spec, init, k, seed, n: {"spec": spec, "rep": "tree", "decider": "maxdepth", "init": init, "depth_extra": k, "seed": seed, "n": n, "ops": []},
+            lambda spec, init, k, seed, n, reuse: {"spec": spec, "rep": "tree", "decider": "maxdepth", "init": init, "depth_extra": k, "seed": seed, "n": n, "ops": [], "reuse": reuse},
             specs(self.flags),
-            st.sampled_from(["full", "pigrow-full-half"]),
+            st.sampled_from(["full", "pigrow", "ramped"]),
             st.sampled_from([0, 0, 1, 2, 3]),
             st.integers(0, 2**31),
             st.integers(1, 6),
+            st.booleans(),
         )
 
     def run(self, case, rec):
         from geneticengine.problems import SingleObjectiveProblem
-        from geneticengine.representations.tree.operators import FullInitializer
 
         w = World(case)
+        other = None
         try:
             if not w.productive():
                 rec.discard()
@@ -281,30 +299,42 @@ class Initializers(Facet):
             except Exception:  # noqa: BLE001
                 rec.discard()
                 return
-            rec.label("init:" + case["init"], f"k={case['depth_extra']}")
-            init = FullInitializer(d)
+            kind = {"pigrow-full-half": "pigrow"}.get(case["init"], case["init"])
+            rec.label("init:" + kind, f"k={case['depth_extra']}", "reused-object" if case.get("reuse") else "fresh-object")
+            init = w.initializer(kind)
             problem = SingleObjectiveProblem(lambda p: 0.0)
+            if case.get("reuse"):
+                # the same initialiser object, first on another grammar (whatever happens there)
+                other = World({"spec": DEEP_SPEC, "rep": "tree", "decider": "maxdepth", "depth_extra": 1, "seed": case["seed"], "ops": []})
+                try:
+                    other.build()
+                    list(init.initialize(problem, other.rep, other.random, 2))
+                except Exception:  # noqa: BLE001
+                    pass
+            name = type(init).__name__
             try:
                 inds = list(init.initialize(problem, w.rep, w.random, case["n"]))
             except Exception as e:  # noqa: BLE001
                 rec.fail(
-                    f"C03/feasible-limit-failed/initializer-full/{exc_bucket(e)}",
-                    f"FullInitializer(max_depth={d} >= min {w.min_depth}) raised {e!r}; grammar {spec_str(case['spec'])}",
+                    f"C03/feasible-limit-failed/initializer-{kind}/{exc_bucket(e)}",
+                    f"{name}(max_depth={d} >= min {w.min_depth}) raised {e!r}{' (object used before on another grammar)' if case.get('reuse') else ''}; grammar {spec_str(case['spec'])}",
                 )
                 return
-            rec.sample({"spec": spec_str(case["spec"]), "init": "FullInitializer", "max_depth": d})
+            rec.sample({"spec": spec_str(case["spec"]), "init": name, "max_depth": d, "reused": bool(case.get("reuse"))})
             for ind in inds:
                 p = ind.get_phenotype()
                 dep = safe_depth(p, w.info)
                 if dep > d:
                     rec.fail(
-                        "C03/depth-exceeded/initializer-full",
-                        f"FullInitializer(max_depth={d}) produced depth {dep}: {canon_str(safe_canon(p, w.info))}; grammar {spec_str(case['spec'])}",
+                        f"C03/depth-exceeded/initializer-{kind}",
+                        f"{name}(max_depth={d}){' (object used before on another grammar)' if case.get('reuse') else ''} produced depth {dep}: {canon_str(safe_canon(p, w.info))}; grammar {spec_str(case['spec'])}",
                     )
                 if dep == d:
-                    rec.nontrivial(("init-full", safe_canon(p, w.info)))
+                    rec.nontrivial((f"init-{kind}", safe_canon(p, w.info)))
         finally:
             w.cleanup()
+            if other is not None:
+                other.cleanup()
 
 
 class MutationChains(DepthOps):
